@@ -220,6 +220,16 @@ def capsule_tree(rng, base: str, symlinks=True, odd_names=True, root_via_symlink
         link(".", os.path.join(rng.choice(dirs), "self-dir"))
         link("/", os.path.join(rng.choice(dirs), "fsroot"))
         link(base, os.path.join(rng.choice(dirs), "link-base"))
+        # index files that are themselves symlinks: a directory request is answered from the index
+        idx_dirs = []
+        for nm, target in (("idx-out", rng.choice(out_files)), ("idx-in", rng.choice(in_files)), ("idx-dangling", os.path.join(base, "nope")),
+                           ("idx-gemini-out", rng.choice(out_files)), ("idx-dir-out", rng.choice(outs))):
+            d = os.path.join(rng.choice(dirs), nm)
+            if not os.path.lexists(d):
+                os.makedirs(d)
+                idx_dirs.append(d)
+                link(target, os.path.join(d, "index.gemini" if nm == "idx-gemini-out" else "index.gmi"))
+        meta["index_link_dirs"] = idx_dirs
     root = real_root
     if root_via_symlink:
         root = os.path.join(base, "site-link")
